@@ -154,7 +154,7 @@ def main(argv=None) -> int:
     n_new = sum(v for k, v in vcounts.items() if k not in known)
 
     distinct = len(hashes)
-    for name in plan["required_counters"]:
+    for name in ([] if (a.replay or a.only_shard is not None) else plan["required_counters"]):
         if counters.get(name, 0) == 0:
             inconclusive.append(f"deciding monitor '{name}' was never evaluated")
     if not a.replay and a.only_shard is None and distinct < plan["min_nontrivial"]:
